@@ -153,7 +153,7 @@ func (c *RetryClient) publish(ctx context.Context, cli *BaseClient, message *Mes
 			default:
 			}
 			if retryErr, ok := err.(ErrorWithRetry); ok {
-				c.retryQueue = append(c.retryQueue, retryErr.Retry)
+				c.retryQueue = append(c.retryQueue, c.retryWithTimeout(retryErr.Retry))
 				c.newRetryByError = true
 			}
 		}
@@ -192,7 +192,7 @@ func (c *RetryClient) subscribe(ctx context.Context, retry bool, cli *BaseClient
 			default:
 			}
 			if retryErr, ok := err.(ErrorWithRetry); ok {
-				c.retryQueue = append(c.retryQueue, retryErr.Retry)
+				c.retryQueue = append(c.retryQueue, c.retryWithTimeout(retryErr.Retry))
 				c.newRetryByError = true
 			}
 		}
@@ -222,7 +222,7 @@ func (c *RetryClient) unsubscribe(ctx context.Context, cli *BaseClient, topics .
 			default:
 			}
 			if retryErr, ok := err.(ErrorWithRetry); ok {
-				c.retryQueue = append(c.retryQueue, retryErr.Retry)
+				c.retryQueue = append(c.retryQueue, c.retryWithTimeout(retryErr.Retry))
 				c.newRetryByError = true
 			}
 		}
@@ -365,6 +365,15 @@ func (c *RetryClient) SetClient(ctx context.Context, cli *BaseClient) {
 	}()
 }
 
+// retryWithTimeout applies ResponseTimeout to a retry function as it is applied to the first try.
+func (c *RetryClient) retryWithTimeout(retry retryFn) retryFn {
+	return func(ctx context.Context, cli *BaseClient) error {
+		ctx2, cancel := c.requestContext(ctx)
+		defer cancel()
+		return retry(ctx2, cli)
+	}
+}
+
 func (c *RetryClient) requestContext(ctx context.Context) (context.Context, func()) {
 	if c.ResponseTimeout == 0 {
 		return ctx, func() {}
@@ -460,8 +469,11 @@ func (c *RetryClient) Retry(ctx context.Context) {
 
 			err := retry(ctx, cli)
 			if retryErr, ok := err.(ErrorWithRetry); ok {
-				c.retryQueue = append(c.retryQueue, retryErr.Retry)
+				c.onError(err)
+				c.retryQueue = append(c.retryQueue, c.retryWithTimeout(retryErr.Retry))
 				c.retryQueue = append(c.retryQueue, oldRetryQueue[i+1:]...)
+				// Close the connection after the task as it is done for the first try.
+				c.newRetryByError = true
 				break
 			}
 		}
